@@ -347,7 +347,11 @@ func c11Setups() []setupF {
 			w.Do(9, 2, CreateP("p", "", false, 100000, nil, "x").F())
 			w.Do(9, 3, Callback("a", "p", 100000, `"poll://g/w"`).F())
 			w.Do(9, 4, Subscribe("s1", "p", 100000, `"nowhere"`).F())
-			w.Do(9, 5, CompleteP("p", promise.Resolved, "", false, "v").F())
+			// a resume task whose OWN timeout (12) is earlier than its root's, claimed by a
+			// worker that then disappears: the lease sweep must time it out
+			w.Do(9, 5, Callback("b", "p", 12, `"poll://g/w"`).F())
+			w.Do(9, 6, CompleteP("p", promise.Resolved, "", false, "v").F())
+			w.Do(9, 7, ClaimT("__resume:b:p", 1, "w9", 1).F())
 			w.SetClock(10)
 		}},
 	}
